@@ -559,6 +559,32 @@ Proof.
   - simpl. rewrite Hk, Hkey, String.eqb_refl. simpl. apply keyref_eqb_refl.
 Qed.
 
+Lemma verifies_app t l1 l2 l3 : verifies t l2 = true -> verifies t (l1 ++ l2 ++ l3) = true.
+Proof.
+  unfold verifies. intro H. rewrite !existsb_app, H. rewrite orb_true_r. reflexivity.
+Qed.
+
+Lemma others_pub_spec fs : others_pub fs = spec_others fs.
+Proof.
+  unfold others_pub, spec_others. induction fs as [|f r IH]; simpl; [reflexivity|]. rewrite IH. f_equal.
+  destruct (load "" f) as [st| |] eqn:L.
+  - apply load_sound in L as [cur [Hacc ->]]. rewrite Hacc. reflexivity.
+  - destruct (spec_accept "" f) eqn:Hacc; [|reflexivity].
+    apply load_complete in Hacc. rewrite Hacc in L. discriminate.
+  - destruct (spec_accept "" f) eqn:Hacc; [|reflexivity].
+    apply load_complete in Hacc. rewrite Hacc in L. discriminate.
+Qed.
+
+Lemma spec_others_public fs j : In j (spec_others fs) -> is_private (j_key j) = false.
+Proof.
+  unfold spec_others. intro H. apply in_flat_map in H as [f [_ Hj]].
+  destruct (spec_accept "" f) as [cur|]; [|contradiction].
+  unfold spec_jwks in Hj. apply in_map_iff in Hj as [r [<- _]]. reflexivity.
+Qed.
+
+Lemma jwks_spec c w cur : w_st w = state_of cur -> jwks c w = spec_published (c_before c) (c_after c) (snd cur).
+Proof. intro H. unfold jwks, spec_published. rewrite H, !others_pub_spec. reflexivity. Qed.
+
 Lemma keymat_eqb_eq a b : keymat_eqb a b = true <-> a = b.
 Proof.
   destruct a as [x|x], b as [y|y]; simpl; split; intro H; try discriminate;
@@ -610,7 +636,7 @@ Section Histories.
   Lemma exec_ok cur seen w sub now :
     winv cur seen w ->
     exists w' t, exec c w sub now = (w', Ok t) /\
-                 token_ok c cur seen sub now t (verifies t (jwks w')) = true /\
+                 token_ok c cur seen sub now t (verifies t (jwks c w')) = true /\
                  winv cur (t :: seen) w'.
   Proof.
     intros [Hst Hin [alg Halg] HA Hjti Hcache]. destruct cur as [a rs]. simpl in *.
@@ -627,14 +653,13 @@ Section Histories.
         rewrite Hbk, <- K1, String.eqb_refl, Hbalg, Halg, <- K2 in Hn. simpl in Hn. rewrite String.eqb_refl in Hn.
         simpl in Hn. apply negb_false_iff in Hn. apply keyref_eqb_eq in Hn. symmetry. exact Hn. }
       exists w, t. split; [reflexivity|].
-      assert (Hver : verifies t (jwks w) = true).
-      { unfold jwks. rewrite Hst. simpl. apply verifies_active with (a := a); [exact Hin | symmetry; exact K1 |].
-        rewrite Hbkey, Hsame. reflexivity. }
+      assert (Hver2 : verifies t (spec_published (c_before c) (c_after c) rs) = true).
+      { apply verifies_app.
+        apply verifies_active with (a := a); [exact Hin | symmetry; exact K1 | rewrite Hbkey, Hsame; reflexivity]. }
+      assert (Hver : verifies t (jwks c w) = true).
+      { rewrite (jwks_spec c w (a, rs) Hst). exact Hver2. }
       split.
-      + unfold token_ok. rewrite Hver. simpl.
-        assert (Hver2 : verifies t (spec_jwks rs) = true).
-        { apply verifies_active with (a := a); [exact Hin | symmetry; exact K1 | rewrite Hbkey, Hsame; reflexivity]. }
-        rewrite Hver2. simpl.
+      + unfold token_ok. rewrite Hver. cbn [fst snd andb]. rewrite Hver2. cbn [andb].
         assert (Hh : header_ok a t = true).
         { unfold header_ok. rewrite <- K1, String.eqb_refl, Halg, <- K2, String.eqb_refl, Htyp, Hbkey, Hsame. simpl.
           apply keyref_eqb_refl. }
@@ -659,10 +684,10 @@ Section Histories.
       { unfold jti_of, t. simpl.
         pose proof (sys_claims_get (issuer c) sub (ttl_of c) now (VJti (w_minted w)) (merge (custom_of c sub) [])) as G.
         cbv zeta in G. apply G. }
-      assert (Hver : verifies t (spec_jwks rs) = true)
-        by (apply verifies_active with (a := a); [exact Hin | reflexivity | reflexivity]).
+      assert (Hver : verifies t (spec_published (c_before c) (c_after c) rs) = true)
+        by (apply verifies_app; apply verifies_active with (a := a); [exact Hin | reflexivity | reflexivity]).
       split.
-      + unfold jwks. cbn [w_st state_of s_pub snd].
+      + erewrite (jwks_spec c _ (a, rs)) by reflexivity. cbn [snd].
         assert (Hh : header_ok a t = true).
         { unfold header_ok, t. simpl. rewrite String.eqb_refl, Halg, String.eqb_refl. simpl. apply keyref_eqb_refl. }
         assert (He : existsb (same_jti t) seen = false).
@@ -715,11 +740,14 @@ Section Histories.
         * apply load_complete in Hacc. rewrite Hacc in L. discriminate.
         * cbn [obs_ok]. rewrite Hacc. apply IH; assumption.
     - (* JWKS *)
-      cbn [steps step obs_ok]. unfold jwks. destruct Hw as [Hst]. rewrite Hst. cbn [state_of s_pub].
-      assert (Hj : jwks_ok cur (spec_jwks (snd cur)) = true).
+      cbn [steps step obs_ok]. destruct Hw as [Hst]. rewrite (jwks_spec c w cur Hst).
+      assert (Hj : jwks_ok c cur (spec_published (c_before c) (c_after c) (snd cur)) = true).
       { unfold jwks_ok. apply andb_true_iff. split.
         - apply (list_eqb_spec jwk_eqb jwk_eqb_eq). reflexivity.
-        - unfold spec_jwks. apply forallb_forall. intros j Hj. apply in_map_iff in Hj as [r [<- _]]. reflexivity. }
+        - unfold spec_published. apply forallb_forall. intros j Hj.
+          apply in_app_or in Hj as [Hj|Hj]; [rewrite (spec_others_public _ _ Hj); reflexivity|].
+          apply in_app_or in Hj as [Hj|Hj]; [|rewrite (spec_others_public _ _ Hj); reflexivity].
+          unfold spec_jwks in Hj. apply in_map_iff in Hj as [r [<- _]]. reflexivity. }
       rewrite Hj. simpl. apply IH; [constructor; assumption | exact Hincl].
   Qed.
 End Histories.
@@ -850,7 +878,8 @@ Qed.
 (* ------------------------------------------------------------------ C16-F1 *)
 
 Definition f1_cfg : config :=
-  {| c_keyid := "key1"; c_name := ""; c_ttl := Some 120000000000%Z; c_claims := None; c_cache := true |}.
+  {| c_keyid := "key1"; c_name := ""; c_ttl := Some 120000000000%Z; c_claims := None; c_cache := true;
+     c_before := []; c_after := [] |}.
 Definition f1_entry (k : nat) : raw_entry :=
   {| r_key := {| k_id := k; k_kind := KEcdsa; k_size := 384 |}; r_xkid := "key1"; r_genkid := "generated";
      r_chain := []; r_chain_ok := true; r_usage_ok := true |}.
@@ -873,12 +902,13 @@ Qed.
 
 (** non-vacuity: reuse is on, a reload rotates in a new active key under a new key id;
     tokens are reused before and freshly signed after, everything verifies *)
-Definition nv_cfg : config :=
-  {| c_keyid := ""; c_name := "idp"; c_ttl := Some 90500000000%Z;
-     c_claims := Some [("sub", VStr "admin"); ("aud", VRaw "[""a""]"); ("who", VSubj)]; c_cache := true |}.
 Definition nv_entry (k : nat) (kid : string) : raw_entry :=
   {| r_key := {| k_id := k; k_kind := KRsa; k_size := 3072 |}; r_xkid := kid; r_genkid := "generated";
      r_chain := [7; 8]; r_chain_ok := true; r_usage_ok := true |}.
+Definition nv_cfg : config :=
+  {| c_keyid := ""; c_name := "idp"; c_ttl := Some 90500000000%Z;
+     c_claims := Some [("sub", VStr "admin"); ("aud", VRaw "[""a""]"); ("who", VSubj)]; c_cache := true;
+     c_before := [PemOk [nv_entry 5 "other"]]; c_after := [] |}.
 Definition nv_ops : list op :=
   [OExec "alice" 1000500000000%Z; OExec "alice" 1001000000000%Z;
    OReload (PemOk [nv_entry 4 "new"; nv_entry 3 "old"]); OExec "alice" 1002500000000%Z; OJwks].
@@ -888,7 +918,7 @@ Lemma nonvacuous :
   exists t1 t2,
     snd (run nv_cfg (PemOk [nv_entry 3 "old"]) nv_ops) =
       [XToken t1 true; XToken t1 true; XDone; XToken t2 true;
-       XJwks [spec_jwk (nv_entry 4 "new"); spec_jwk (nv_entry 3 "old")]] /\
+       XJwks [spec_jwk (nv_entry 5 "other"); spec_jwk (nv_entry 4 "new"); spec_jwk (nv_entry 3 "old")]] /\
     t_kid t1 = "old" /\ t_kid t2 = "new" /\ t_alg t2 = "PS384" /\
     mget "sub" (t_claims t2) = Some (VStr "alice") /\ mget "who" (t_claims t2) = Some (VStr "alice") /\
     mget "exp" (t_claims t2) = Some (VInt 1093%Z).
